@@ -28,6 +28,22 @@ EXTRA += [
 ]
 
 
+EXTRA += [
+    # a class body that READS a name it also assigns, inside a function owning a variable of that name: the read goes to the
+    # class namespace, then to the GLOBALS - never to the enclosing function (members and the branches taken depend on it)
+    gen_class.OBSERVE +
+    "label = 'global-label'\nsize = 10\nlevel = 1\n"
+    "def make(label, size=3):\n    level = 50\n    class Pen:\n        label = label + '!'\n        size = size\n        level += 1\n"
+    "        if level > 50:\n            big = True\n        else:\n            big = False\n"
+    "        def show(self):\n            return (self.label, self.size, self.level, self.big)\n    return Pen, (label, size, level)\n"
+    "P, seen = make('param-label')\n_show(P)\nprint(P().show(), seen)\n",
+    gen_class.OBSERVE +
+    "tag = 'g'\nclass Outer:\n    def build(self, tag):\n        class Inner:\n            tag = tag * 2\n            names = [tag]\n"
+    "            @property\n            def t(self):\n                return self.tag\n        return Inner\n"
+    "I = Outer().build('m')\n_show(I)\nprint(I().t, I.names)\n",
+]
+
+
 def run(chk, build, replay=None):
     common.standard_proof_part(chk, build, VFILES)
     chk.trusted += [
